@@ -320,12 +320,12 @@ func (f *Frame) applyContract(con *Contract, callee *ssa.Function, sig *types.Si
 				st.vars[h] = vc.define("E", vc.varSort[h], sto(vc.get(st, h), sref(s.T), na))
 			}
 		}
-		// callee may allocate
-		if _, done := st.vars["alloc"]; done && st.vars["alloc"] == preAlloc {
-			na := vc.fresh("alloc", "Int")
-			vc.assume(fmt.Sprintf("(>= %s %s)", na, preAlloc))
-			st.vars["alloc"] = na
-		}
+	}
+	// callee may allocate
+	if vc.get(st, "alloc") == preAlloc {
+		na := vc.fresh("alloc", "Int")
+		vc.assume(fmt.Sprintf("(>= %s %s)", na, preAlloc))
+		st.vars["alloc"] = na
 	}
 	res := f.freshResults(sig, st, "res_"+lastName(con.Name))
 	// ensures
